@@ -40,6 +40,7 @@ pub mod verif {
     pub fn contempt() -> i32 { EngineOptions::default().contempt_factor }
 
     pub use crate::engine::search::verif_hooks::{arm_abort, disarm_abort, take_iterations};
+    pub use crate::engine::search::verif_hooks::{arm_tt_log, take_tt_log, TtEvent};
 }
 
 pub struct Engine<T: UciTx + Send + Sync + 'static> {
